@@ -144,8 +144,8 @@ def gen(ctx):
     for i, (v, secs) in enumerate(BLOCK_TIMEOUTS):
         if i % ctx.nshards == ctx.shard:
             yield {'kind': 'block_timeout', 'v': v, 'seconds': str(secs)}
-    n_conv = 1500 if quick else 300000
-    n_num = 3000 if quick else 1000000
+    n_conv = 4000 if quick else 300000
+    n_num = 8000 if quick else 1000000
     shard, nsh = ctx.shard, ctx.nshards
     # malformed strings (every shard its slice)
     for i, s in enumerate(MALFORMED):
@@ -213,7 +213,7 @@ def gen(ctx):
     if shard == 0:
         for v in [None, -1, -0.5, 0, 0.0, 5, 2.5, -10 ** 9, float('inf'), [], b'1s', (1,), {}]:
             yield {'kind': 'period', 'v': v}
-    for k in range(60 if quick else 2000):
+    for k in range(150 if quick else 2000):
         v = rng.choice([rng.randrange(-1000, 1000), rng.uniform(-1000, 1000)])
         yield {'kind': 'period', 'v': v}
 
